@@ -34,17 +34,42 @@ pub struct Fetch {
     size: u32,
 }
 
+/// A long poll: the handler answers once the gate has been opened (by an `Open` request).
+#[repr(C)]
+#[derive(Serialize, Deserialize, Archive, PartialEq, Debug)]
+#[archive(check_bytes)]
+pub struct Wait {
+    id: u64,
+}
+
+/// Opens the gate: every pending and every later `Wait` is answered.
+#[repr(C)]
+#[derive(Serialize, Deserialize, Archive, PartialEq, Debug)]
+#[archive(check_bytes)]
+pub struct Open {
+    id: u64,
+}
+
 type Log = Arc<Mutex<Vec<String>>>;
 
 pub struct Svc {
     log: Log,
     epoch: tokio::time::Instant,
+    gate: tokio::sync::watch::Sender<bool>,
+}
+
+impl Svc {
+    fn new(log: Log) -> Self {
+        Self { log, epoch: tokio::time::Instant::now(), gate: tokio::sync::watch::channel(false).0 }
+    }
 }
 
 impl RpcService for Svc {
     fn register_handlers(registry: &mut ServiceRegistry<Self>) {
         registry.add_handler::<Ask>();
         registry.add_handler::<Fetch>();
+        registry.add_handler::<Wait>();
+        registry.add_handler::<Open>();
     }
 }
 
@@ -75,6 +100,111 @@ impl Handler<Fetch> for Svc {
     }
 }
 
+#[datacake_rpc::async_trait]
+impl Handler<Wait> for Svc {
+    type Reply = u64;
+
+    async fn on_message(&self, msg: Request<Wait>) -> Result<Self::Reply, Status> {
+        let id: u64 = msg.id.into();
+        self.log.lock().unwrap().push(format!("B:{}:{}", id, self.epoch.elapsed().as_millis()));
+        let mut rx = self.gate.subscribe();
+        while !*rx.borrow_and_update() {
+            if rx.changed().await.is_err() { break; }
+        }
+        self.log.lock().unwrap().push(format!("E:{}:{}", id, self.epoch.elapsed().as_millis()));
+        Ok(id * 7 + 3)
+    }
+}
+
+#[datacake_rpc::async_trait]
+impl Handler<Open> for Svc {
+    type Reply = u64;
+
+    async fn on_message(&self, msg: Request<Open>) -> Result<Self::Reply, Status> {
+        let id: u64 = msg.id.into();
+        self.log.lock().unwrap().push(format!("B:{}:{}", id, self.epoch.elapsed().as_millis()));
+        self.gate.send_replace(true);
+        self.log.lock().unwrap().push(format!("E:{}:{}", id, self.epoch.elapsed().as_millis()));
+        Ok(id * 7 + 3)
+    }
+}
+
+/// runrv <seed> <timeout_ms|0> <waiters> <gap_ms>
+/// Concurrent requests of which the earlier ones wait for a later one, on ONE channel and a healthy network (the empty fault
+/// schedule): `waiters` long polls (ids 1..) are sent, `gap_ms` later the request that opens the gate (id 100).  HTTP/2 carries
+/// each request on its own stream, so every one of them is answered; a call that has not returned 30 simulated seconds
+/// later is recorded as `D:<id>:other:<t>` (neither a reply nor an error), with or without a client timeout.
+fn runrv(t: &[&str]) -> String {
+    let seed: u64 = t[1].parse().unwrap();
+    let timeout_ms: u64 = t[2].parse().unwrap();
+    let waiters: u64 = t[3].parse().unwrap();
+    let gap_ms: u64 = t[4].parse().unwrap();
+    let log: Log = Arc::new(Mutex::new(Vec::new()));
+    let mut sim = Builder::new()
+        .simulation_duration(Duration::from_secs(120))
+        .min_message_latency(Duration::from_millis(1))
+        .max_message_latency(Duration::from_millis(20))
+        .build_with_rng(Box::new(<rand::rngs::StdRng as rand::SeedableRng>::seed_from_u64(seed)));
+    let slog = log.clone();
+    sim.host("server", move || {
+        let slog = slog.clone();
+        async move {
+            let server = Server::listen((IpAddr::from(Ipv4Addr::UNSPECIFIED), PORT).into()).await?;
+            server.add_service(Svc::new(slog));
+            tokio::time::sleep(Duration::from_secs(110)).await;
+            Ok(())
+        }
+    });
+    let clog = log.clone();
+    sim.client("client0", async move {
+        let start = tokio::time::Instant::now();
+        let addr: SocketAddr = (lookup("server"), PORT).into();
+        let mut client = RpcClient::<Svc>::new(Channel::connect(addr));
+        if timeout_ms > 0 {
+            client.set_timeout(Duration::from_millis(timeout_ms));
+        }
+        tokio::time::sleep(Duration::from_millis(50)).await;
+        fn outcome<T>(res: Result<Result<T, Status>, tokio::time::error::Elapsed>, id: u64) -> String {
+            match res {
+                Err(_) => "other".to_string(),
+                Ok(Ok(_)) => format!("r{}", id * 7 + 3),
+                Ok(Err(st)) => match st.code {
+                    ErrorCode::ConnectionError => "conn".to_string(),
+                    ErrorCode::Timeout => "timeout".to_string(),
+                    ErrorCode::InvalidPayload => "invalid".to_string(),
+                    _ => "other".to_string(),
+                },
+            }
+        }
+        let mut handles = Vec::new();
+        for id in 1..=waiters {
+            let c = client.clone();
+            let l = clog.clone();
+            handles.push(tokio::spawn(async move {
+                l.lock().unwrap().push(format!("S:{}:{}", id, start.elapsed().as_millis()));
+                let res = tokio::time::timeout(Duration::from_secs(30), c.send(&Wait { id })).await;
+                let res = res.map(|r| r.and_then(|v| v.deserialize_view().map_err(Status::internal)).and_then(|v: u64| if v == id * 7 + 3 { Ok(()) } else { Err(Status::invalid()) }));
+                l.lock().unwrap().push(format!("D:{}:{}:{}", id, outcome(res, id), start.elapsed().as_millis()));
+            }));
+            tokio::time::sleep(Duration::from_millis(3)).await;
+        }
+        tokio::time::sleep(Duration::from_millis(gap_ms)).await;
+        let id = 100u64;
+        clog.lock().unwrap().push(format!("S:{}:{}", id, start.elapsed().as_millis()));
+        let res = tokio::time::timeout(Duration::from_secs(30), client.send(&Open { id })).await;
+        let res = res.map(|r| r.map(|_| ()));
+        clog.lock().unwrap().push(format!("D:{}:{}:{}", id, outcome(res, id), start.elapsed().as_millis()));
+        for h in handles {
+            let _ = h.await;
+        }
+        Ok(())
+    });
+    let res = sim.run();
+    let events = log.lock().unwrap().clone();
+    let status = if res.is_ok() { "done" } else { "simerr" };
+    format!("trace {} timeout={} {}", status, timeout_ms, if events.is_empty() { "-".to_string() } else { events.join(" ") })
+}
+
 /// runbig <timeout_ms> <reply size> <fault H|P|-> <fault at ms after the request was sent>
 /// One client, link latency pinned to 10 ms: a small request sets the connection up, then ONE request with a large reply is
 /// sent and the fault strikes `at` ms later (request arrives at +10, response head and first flight at +20).  A call that has
@@ -95,7 +225,7 @@ fn runbig(t: &[&str]) -> String {
         let slog = slog.clone();
         async move {
             let server = Server::listen((IpAddr::from(Ipv4Addr::UNSPECIFIED), PORT).into()).await?;
-            server.add_service(Svc { log: slog, epoch: tokio::time::Instant::now() });
+            server.add_service(Svc::new(slog));
             tokio::time::sleep(Duration::from_secs(110)).await;
             Ok(())
         }
@@ -179,7 +309,7 @@ fn run(t: &[&str]) -> String {
         let slog = slog.clone();
         async move {
             let server = Server::listen((IpAddr::from(Ipv4Addr::UNSPECIFIED), PORT).into()).await?;
-            server.add_service(Svc { log: slog, epoch: tokio::time::Instant::now() });
+            server.add_service(Svc::new(slog));
             tokio::time::sleep(Duration::from_secs(110)).await;
             Ok(())
         }
@@ -289,6 +419,10 @@ fn main() {
             "end" => writeln!(out, "end").unwrap(),
             "run" => {
                 let r = std::panic::catch_unwind(|| run(&toks)).unwrap_or_else(|_| "panic".to_string());
+                writeln!(out, "{}", r).unwrap();
+            },
+            "runrv" => {
+                let r = std::panic::catch_unwind(|| runrv(&toks)).unwrap_or_else(|_| "panic".to_string());
                 writeln!(out, "{}", r).unwrap();
             },
             "runbig" => {
